@@ -1,0 +1,72 @@
+//go:build verif
+
+// Machine-checked contracts for govc (see /verif/DESIGN.md). Comments only;
+// compiled only with the build tag "verif".
+
+package errorhandler
+
+// ---- C12 (HTTP side): every failure is written with the status of its kind ----
+
+// the response writer of one error kind: exactly one WriteHeader with the captured code; body and
+// Content-Type only when verbose responses are enabled.
+//@ func errorWriter$1
+//@   props C12
+//@   ensures wh.n == old(wh.n) + 1 && wh.arg0[old(wh.n)] == rw && wh.arg1[old(wh.n)] == old(*code)
+//@   ensures !old((*options).verboseErrors) ==> wbody.n == old(wbody.n) && hset.n == old(hset.n)
+
+//@ func errorWriter
+//@   props C12
+//@   modifies nothing
+//@   ensures fvinit(ret0, errorWriter$1, code) == code && fvinit(ret0, errorWriter$1, options) == options
+
+// defaults, in the order of the property: 401, 403, 502, 400, 404, 500
+//@ func defaultOptions
+//@   props C12
+//@   ensures ret0 != nil && !ret0.verboseErrors
+//@   ensures fvinit(ret0.onAuthenticationError, errorWriter$1, code) == 401
+//@   ensures fvinit(ret0.onAuthorizationError, errorWriter$1, code) == 403
+//@   ensures fvinit(ret0.onCommunicationError, errorWriter$1, code) == 502
+//@   ensures fvinit(ret0.onPreconditionError, errorWriter$1, code) == 400
+//@   ensures fvinit(ret0.onNoRuleError, errorWriter$1, code) == 404
+//@   ensures fvinit(ret0.onInternalError, errorWriter$1, code) == 500
+//@   ensures fvinit(ret0.onAuthenticationError, errorWriter$1, options) == ret0 && fvinit(ret0.onInternalError, errorWriter$1, options) == ret0
+
+// overrides: "or the status configured for that kind" (0 = not configured)
+//@ func WithAuthenticationErrorCode$1
+//@   props C12
+//@   ensures old(*code) != 0 ==> fvinit(o.onAuthenticationError, errorWriter$1, code) == old(*code)
+//@   ensures old(*code) == 0 ==> o.onAuthenticationError == old(o.onAuthenticationError)
+//@ func WithAuthorizationErrorCode$1
+//@   props C12
+//@   ensures old(*code) != 0 ==> fvinit(o.onAuthorizationError, errorWriter$1, code) == old(*code)
+//@   ensures old(*code) == 0 ==> o.onAuthorizationError == old(o.onAuthorizationError)
+//@ func WithCommunicationErrorCode$1
+//@   props C12
+//@   ensures old(*code) != 0 ==> fvinit(o.onCommunicationError, errorWriter$1, code) == old(*code)
+//@   ensures old(*code) == 0 ==> o.onCommunicationError == old(o.onCommunicationError)
+//@ func WithPreconditionErrorCode$1
+//@   props C12
+//@   ensures old(*code) != 0 ==> fvinit(o.onPreconditionError, errorWriter$1, code) == old(*code)
+//@   ensures old(*code) == 0 ==> o.onPreconditionError == old(o.onPreconditionError)
+//@ func WithNoRuleErrorCode$1
+//@   props C12
+//@   ensures old(*code) != 0 ==> fvinit(o.onNoRuleError, errorWriter$1, code) == old(*code)
+//@   ensures old(*code) == 0 ==> o.onNoRuleError == old(o.onNoRuleError)
+//@ func WithInternalServerErrorCode$1
+//@   props C12
+//@   ensures old(*code) != 0 ==> fvinit(o.onInternalError, errorWriter$1, code) == old(*code)
+//@   ensures old(*code) == 0 ==> o.onInternalError == old(o.onInternalError)
+
+// classification in the order of the property; the status written is the code captured by the
+// handler configured for that kind.
+//@ spec httpClass(e error) int = ite(Is(e, heimdall.ErrAuthentication), 1, ite(Is(e, heimdall.ErrAuthorization), 2, ite(Is(e, heimdall.ErrCommunicationTimeout) || Is(e, heimdall.ErrCommunication), 3, ite(Is(e, heimdall.ErrArgument), 4, ite(Is(e, heimdall.ErrNoRuleFound), 5, ite(isRedirectError(e), 6, 7))))))
+
+//@ func (*errorHandler).HandleError
+//@   props C12 C01
+//@   ensures httpClass(err) != 6 ==> wh.n == old(wh.n) + 1 && wh.arg0[old(wh.n)] == rw
+//@   ensures httpClass(err) == 1 ==> wh.arg1[old(wh.n)] == fvinit(old(h.opts.onAuthenticationError), errorWriter$1, code)
+//@   ensures httpClass(err) == 2 ==> wh.arg1[old(wh.n)] == fvinit(old(h.opts.onAuthorizationError), errorWriter$1, code)
+//@   ensures httpClass(err) == 3 ==> wh.arg1[old(wh.n)] == fvinit(old(h.opts.onCommunicationError), errorWriter$1, code)
+//@   ensures httpClass(err) == 4 ==> wh.arg1[old(wh.n)] == fvinit(old(h.opts.onPreconditionError), errorWriter$1, code)
+//@   ensures httpClass(err) == 5 ==> wh.arg1[old(wh.n)] == fvinit(old(h.opts.onNoRuleError), errorWriter$1, code)
+//@   ensures httpClass(err) == 7 ==> wh.arg1[old(wh.n)] == fvinit(old(h.opts.onInternalError), errorWriter$1, code)
